@@ -238,6 +238,24 @@ def case_fn(env, case, st):
         check("truncated-%d" % k, proof[:-k])
     check("len64", proof[:64])
     check("len0", b"")
+    # declared lengths that differ from the real one only ABOVE bit 31 (len + 2^32, len + 2^33): the proof sits at the start of a
+    # sparse mapping of that size, so every byte the declared length covers is readable (zeros); the specification rejects the
+    # trailing bytes, a length kept in a 32-bit variable does not see them
+    if part == "core" and len(proof) <= 700 and mantissa in (0, 3) and exp == 0:
+        from ..lib import sparse
+        for k in (1, 2):
+            total = len(proof) + k * 2**32
+            try:
+                addr = sparse(proof, total)
+            except (OSError, MemoryError, ValueError, OverflowError):
+                st.count("sparse-mapping-unavailable")       # e.g. strict overcommit: this sub-case is skipped, never a verdict
+                continue
+            mn_, mx_ = c_uint64(0), c_uint64(0)
+            r_ = L.rangeproof_verify(L.ctx, byref(mn_), byref(mx_), cm, ctypes.c_void_p(addr), total, extra if extra else None, len(extra), gobj)
+            st.calls += 1
+            st.count("len+2^32-reject")
+            if r_ != 0:
+                st.fail("rangeproof_verify accepted a proof followed by %d * 2^32 trailing (zero) bytes" % k, {"cfg": L.config, "spec": [str(x) for x in spec], "declared_length": total})
     # ---- other commitment / generator / extra data
     c2 = SECP.add(commit, SECP.G)
     check("other-commit", proof, env.commit_obj(c2), c2)
